@@ -155,6 +155,10 @@ package parser
 //@              rule.RecordingRule.Expr.Value != nil && len(rule.RecordingRule.Expr.Value.Pos) >= 1
 //@   ensures !isEmpty && rule.Error.Err == nil && rule.AlertingRule != nil ==> len(rule.AlertingRule.Alert.Pos) >= 1 &&
 //@              rule.AlertingRule.Expr.Value != nil && len(rule.AlertingRule.Expr.Value.Pos) >= 1
+// C06: every field node is built from the field's own YAML node, with the file's offsets and the column after the key
+//@   at call newYamlNode assert [C06] arg0 == part && arg1 == offsetLine && arg2 == offsetColumn && arg3 == contentLines && arg4 == key.Column + 2
+//@   at call newPromQLExpr assert [C06] arg0 == part && arg1 == offsetLine && arg2 == offsetColumn && arg3 == contentLines && arg4 == key.Column + 2
+//@   at call newYamlMap assert [C06] arg0 == key && arg1 == part && arg2 == offsetLine && arg3 == offsetColumn && arg4 == contentLines
 //@   loop 1 invariant recordPart != nil ==> len(recordPart.Pos) >= 1
 //@   loop 1 invariant alertPart != nil ==> len(alertPart.Pos) >= 1
 //@   loop 1 invariant exprPart != nil ==> exprPart.Value != nil && len(exprPart.Value.Pos) >= 1
@@ -186,6 +190,7 @@ package parser
 //@ func newPromQLExpr [C02, C06]
 //@   assumed requires
 //@   requires node != nil && node.Line >= 1 && node.Column >= 1 && minColumn >= 1
+//@   at call newYamlNode assert [C06] arg0 == node && arg1 == offsetLine && arg2 == offsetColumn && arg3 == contentLines && arg4 == minColumn
 //@   ensures result != nil && result.Value != nil && len(result.Value.Pos) >= 1
 
 // ---------------------------------------------------------------------------------------------
@@ -250,3 +255,16 @@ package parser
 //@   ensures !(shortTag(node) == "!!map" || shortTag(node) == "!!null") ==> group.Error.Err != nil
 // the keys rulefmt.RuleGroup knows (the loader decodes with KnownFields), plus the Thanos extension under that schema
 //@ spec func groupKey(k string, schema Schema) bool = k == "name" || k == "interval" || k == "query_offset" || k == "limit" || k == "labels" || k == "rules" || (k == "partial_response_strategy" && schema == ThanosSchema)
+
+// C06 (label and annotation maps): every key and value node of a map gets its positions from newYamlNode, that is
+// from diags.NewPositionRange applied to its own YAML node (which handles quoting and multi-line scalars), never
+// from a shortcut over the node's line and column.
+//@ func newYamlMap [C06]
+//@   ghost made set[*YamlNode]
+//@   after call newYamlNode set made = with(made, result)
+//@   at call newYamlNode#1 assert arg0 == key
+//@   at call newYamlNode#2 assert arg0 == ckey
+//@   at call newYamlNode#3 assert arg0 == child && arg4 == ckey.Column + 2
+//@   at call newYamlNode assert arg1 == offsetLine && arg2 == offsetColumn && arg3 == contentLines
+//@   at store Key assert member(made, arg0)
+//@   at store Value assert member(made, arg0)
